@@ -494,6 +494,19 @@ theorem client_carries_spelled (segs : List Seg) (hne : segs ≠ []) (hwf : ∀ 
         rw [ht, hc]; rfl
   simp [clientCarried, hnil, hp]
 
+/-- a connector whose `route_path_default` was configured (on the class or the instance) carries **that**
+route path when an operation names none — not the library's '1/0' -/
+theorem client_configured_default (segs : List Seg) (hne : segs ≠ []) (hwf : ∀ s ∈ segs, s.WF) :
+    clientCarried (.dfltAs (renderSlash segs)) .dflt = some (some segs) := by
+  have h := client_carries_spelled segs hne hwf
+  simpa [clientCarried] using h
+
+/-- the unconfigured connector is the special case `route_path_default = '1/0'`, and a falsy default
+sends no route path at all (accepted by every personality) -/
+theorem client_default_is_configured_default (s : SendArg) :
+    clientCarried .dflt s = clientCarried (.dfltAs routeDefault) s
+    ∧ clientCarried (.dfltAs []) s = clientCarried .falsy s := ⟨rfl, rfl⟩
+
 /-- … so a device configured (through `main()`) with the single segment `s` accepts a client that
 spells `segs` iff `segs = [s]` -/
 theorem spelled_end_to_end (s : Seg) (hs : s.WF) (segs : List Seg) (hne : segs ≠ []) (hwf : ∀ x ∈ segs, x.WF)
